@@ -5,6 +5,7 @@ INVARIANT UnderSource
 INVARIANT SigLower
 PROPERTY RefusedIsNoop
 PROPERTY OnlyAddressed
+PROPERTY OnlyDelRemoves
 CHECK_DEADLOCK FALSE
 CONSTANTS
  Rpm <- MCRpm
